@@ -76,5 +76,5 @@ Result == SelectSeq(lout, LAMBDA t : t.t # <<>> \/ t.k = "LanguageToken")
 Refines == phase = "done" => Chars(SelectSeq(Flat(Result), LAMBDA e : e.c # "ACT")) = Chars(RefOut(toks))
 RefinesPos == (phase = "done" /\ \A i \in 1..Len(toks) : ~toks[i].f) => SelectSeq(Flat(Result), LAMBDA e : e.c # "ACT") = RefOut(toks)
 \* the work list shrinks or the output grows: termination
-Terminates == <>(phase = "done" \/ phase = "build")
+Terminates == (phase = "run") ~> (phase = "done")
 =============================================================================
